@@ -1,4 +1,5 @@
 mod alloc;
+mod alt;
 mod c09;
 mod check;
 mod coord;
